@@ -106,7 +106,7 @@ Lemma consume_identlike_ty l ty n : consume_identlike l = Some (ty, n) ->
 Proof.
   unfold consume_identlike. intros H. bind_inv H. if_inv H; [some_inv H; auto|].
   bind_inv H. if_inv H; [some_inv H; auto|]. if_inv H; [some_inv H; auto|].
-  right. right. right.
+  right. right. right. bind_inv H. unfold url_arg in H.
   inv_all H; try (some_inv H; auto; fail); apply url_end_ty in H; exact H.
 Qed.
 
@@ -384,7 +384,7 @@ Proof.
   subst r. rewrite <- app_assoc. cbn [app].
   assert (Hws : scan_while is_ws (b ++ [41; 0]) = Some 0).
   { destruct b as [|c b]; cbn [app hd0] in *; rewrite scan_while_cons; [reflexivity|rewrite Hw; reflexivity]. }
-  rewrite Hws. cbn [option_bind]. rewrite skipz_0.
+  rewrite Hws. cbn [option_bind]. rewrite skipz_0. unfold url_arg.
   replace (peekz (b ++ [41; 0]) 0) with (Some (hd0 (b ++ [41]))) by (destruct b; cbn [app hd0]; rewrite peekz_0; reflexivity).
   cbn [option_bind].
   replace ((hd0 (b ++ [41]) =? 34) || (hd0 (b ++ [41]) =? 39)) with false by lia.
@@ -426,3 +426,17 @@ Example isurl_example :
   css_lex (url_open ++ [92; 226; 130] ++ [41]) = LexDone [(TURL, url_open ++ [92; 226; 130] ++ [41])] /\
   is_url_unquoted [97; 32; 98] = Some false.
 Proof. vm_compute. auto. Qed.
+
+(* the statements of Props/C07.v *)
+Lemma isident_agrees_full : forall b,
+  (exists r, is_ident b = Some r) /\
+  (b <> [] ->
+   (is_ident b = Some true <->
+    exists ty, css_lex b = LexDone [(ty, b)] /\ (ty = TIdent \/ ty = TCustomPropertyName))).
+Proof. intros b. split; [apply is_ident_total|apply isident_agrees_proof]. Qed.
+
+Lemma isurl_sound_full : forall b,
+  (exists r, is_url_unquoted b = Some r) /\
+  (is_url_unquoted b = Some true ->
+   css_lex (url_open ++ b ++ [41]) = LexDone [(TURL, url_open ++ b ++ [41])]).
+Proof. intros b. split; [apply is_url_unquoted_total|apply isurl_sound_proof]. Qed.
